@@ -47,12 +47,18 @@ def _digit(e):
     x = _strip_all(e)
     if x.k == "UnaryOperator" and x.v == "*":
         b = _strip_all(x.kids[0])
+        if _arr_len(b.t) is None and not (b.t or "").replace(" ", "").endswith(("char*", "char*const")):
+            # a key handed over through a pointer (KEY_TYPE *keyp): a scalar operand
+            return (text(x), None, None)
         return (text(b), 0, _arr_len(b.t))
     if x.k == "ArraySubscriptExpr":
         b = _strip_all(x.kids[0])
         ci = const_int(x.kids[1])
         if ci is not None and _arr_len(b.t) is not None:
             return (text(b), ci, _arr_len(b.t))
+        if ci is not None and (b.t or "").replace(" ", "").endswith(("char*", "char*const")):
+            # a byte-array key that decayed to a pointer (array parameter)
+            return (text(b), ci, None)
     if x.k in ("DeclRefExpr", "MemberExpr", "ArraySubscriptExpr"):
         return (text(x), None, None)
     return None
@@ -384,7 +390,7 @@ def extend(res, use_cache=True, macros=("TEST_KEY_SET_OR", "TEST_VALUE")):
         fs = [f for f in r["findings"] if any(m in f["function"] for m in macros)]
         res.findings.extend(fs, fam)
         n += r["n"]
-        if r["key_sites"] < 10 or r["val_sites"] < 5:
+        if r["key_sites"] < 6 or r["val_sites"] < 2:     # (factoring repeated comparisons into helpers lowers the counts)
             raise AnalysisError("CMP-MACRO: %s has %d key / %d value comparison sites (anchor vanished)"
                                 % (fam, r["key_sites"], r["val_sites"]))
     if len(out) < 22:
